@@ -33,7 +33,13 @@ func DecodeSignature(sig string) (r, s *big.Int, err error) {
 	if len(values) != 2 {
 		return r, s, fmt.Errorf("wrong number of values in signature: got %d, want 2", len(values))
 	}
-	r, _ = new(big.Int).SetString(values[0], 36)
-	s, _ = new(big.Int).SetString(values[1], 36)
+	r, ok := new(big.Int).SetString(values[0], 36)
+	if !ok {
+		return nil, nil, fmt.Errorf("signature value r is not a base-36 integer")
+	}
+	s, ok = new(big.Int).SetString(values[1], 36)
+	if !ok {
+		return nil, nil, fmt.Errorf("signature value s is not a base-36 integer")
+	}
 	return r, s, nil
 }
